@@ -86,6 +86,8 @@ impl File {
         let dest = OpenOptions::new()
             .create(true)
             .write(true)
+            // Overwrite anything at `dest`, don't keep the tail of a longer file
+            .truncate(true)
             .mode(this_metadata.mode())
             .open(dest)?;
         let mut offset = 0;
